@@ -489,7 +489,10 @@ class Worker(object):
                 else:
                     args.pop(0)
 
-            os.environ = old_env
+            # restore the process environment (rebinding `os.environ` to the
+            # saved copy would leave the changed variables in place)
+            os.environ.clear()
+            os.environ.update(old_env)
 
         self._log.debug('%s: got %s', uid, out)
 
@@ -547,7 +550,10 @@ class Worker(object):
             sys.stdout = bak_stdout
             sys.stderr = bak_stderr
 
-            os.environ = old_env
+            # restore the process environment (rebinding `os.environ` to the
+            # saved copy would leave the changed variables in place)
+            os.environ.clear()
+            os.environ.update(old_env)
 
         return out, err, ret, val, exc
 
@@ -615,7 +621,10 @@ class Worker(object):
             sys.stdout = bak_stdout
             sys.stderr = bak_stderr
 
-            os.environ = old_env
+            # restore the process environment (rebinding `os.environ` to the
+            # saved copy would leave the changed variables in place)
+            os.environ.clear()
+            os.environ.update(old_env)
 
         return out, err, ret, val, exc
 
